@@ -323,7 +323,10 @@ def build(graph, pick=None):
             x.extend(pv)
         elif s in ('set', 'MS'):
             x.update(pv)
-        elif s in ('dict', 'MD', 'OD', 'RD', 'MO'):
+        elif s == 'OD':                           # descending keys: the order differs from the sorted order
+            for j, v in enumerate(pv):
+                x['k%d' % (len(pv) - 1 - j)] = v
+        elif s in ('dict', 'MD', 'RD', 'MO'):
             for j, v in enumerate(pv):
                 x['k%d' % j] = v
         elif s == 'GT':
